@@ -155,44 +155,62 @@ func pinMain(args []string) {
 			emit(map[string]any{"spkis": sp, "global_before": globalState()})
 			return
 		}
-		srv := servers[num(m["srv"])]
-		fp := string(unhex(m["fp"]))
-		if kind, ok := m["kind"].(string); ok {
-			fp = mkFingerprint(kind, srv, servers[(num(m["srv"])+1)%len(servers)])
-		}
-		h0 := srv.hits.Load()
-		in, outr, shell := simpleshell.NewEchoShell()
-		go func() { io.WriteString(in, "shell-output\n"); in.Close() }()
-		_ = outr
-		ctx, cancel := context.WithTimeout(context.Background(), 5*time.Second)
-		var err error
-		var pan any
-		func() {
-			defer func() { pan = recover() }()
-			err = simpleshell.Go(ctx, simpleshell.ConnConfig{C2: srv.srv.URL + simpleshell.IOPath, Fingerprint: fp}, shell)
-		}()
-		cancel()
-		res := map[string]any{"i": m["i"], "hit": srv.hits.Load() > h0, "global": globalState(), "fp": hx([]byte(fp))}
-		switch {
-		case nil != pan:
-			res["r"] = "panic"
-			res["msg"] = fmt.Sprint(pan)
-		case nil == err:
-			res["r"] = "ok"
-		default:
-			res["r"] = "err"
-			res["msg"] = err.Error()
-			switch {
-			case errors.Is(err, simpleshell.ErrNoMatchingCertificate):
-				res["cls"] = "nomatch"
-			case strings.Contains(err.Error(), "fingerprint"):
-				res["cls"] = "badfp"
-			case strings.Contains(err.Error(), "x509") || strings.Contains(err.Error(), "certificate"):
-				res["cls"] = "x509"
-			default:
-				res["cls"] = "other"
+		var call func(m map[string]any) map[string]any
+		call = func(m map[string]any) map[string]any {
+			srv := servers[num(m["srv"])]
+			fp := string(unhex(m["fp"]))
+			if kind, ok := m["kind"].(string); ok {
+				fp = mkFingerprint(kind, srv, servers[(num(m["srv"])+1)%len(servers)])
 			}
+			h0 := srv.hits.Load()
+			in, outr, eshell := simpleshell.NewEchoShell()
+			go func() { io.WriteString(in, "shell-output\n"); in.Close() }()
+			_ = outr
+			var shell simpleshell.Shell = eshell
+			var nested map[string]any
+			if nm, ok := m["nested"].(map[string]any); ok {
+				/* ANOTHER call of the same process runs to completion while this one is between configuring its client and connecting */
+				shell = &nestShell{Shell: eshell, f: func() { nested = call(nm) }}
+			}
+			ctx, cancel := context.WithTimeout(context.Background(), 5*time.Second)
+			var err error
+			var pan any
+			func() {
+				defer func() { pan = recover() }()
+				err = simpleshell.Go(ctx, simpleshell.ConnConfig{C2: srv.srv.URL + simpleshell.IOPath, Fingerprint: fp}, shell)
+			}()
+			cancel()
+			hitNow := srv.hits.Load() - h0
+			if nil != nested && num(m["srv"]) == num(m["nested"].(map[string]any)["srv"]) && true == nested["hit"] {
+				hitNow-- /* the nested call's own request */
+			}
+			res := map[string]any{"i": m["i"], "hit": hitNow > 0, "global": globalState(), "fp": hx([]byte(fp))}
+			if nil != nested {
+				res["nested"] = nested
+			}
+			switch {
+			case nil != pan:
+				res["r"] = "panic"
+				res["msg"] = fmt.Sprint(pan)
+			case nil == err:
+				res["r"] = "ok"
+			default:
+				res["r"] = "err"
+				res["msg"] = err.Error()
+				switch {
+				case errors.Is(err, simpleshell.ErrNoMatchingCertificate):
+					res["cls"] = "nomatch"
+				case strings.Contains(err.Error(), "fingerprint"):
+					res["cls"] = "badfp"
+				case strings.Contains(err.Error(), "x509") || strings.Contains(err.Error(), "certificate"):
+					res["cls"] = "x509"
+				default:
+					res["cls"] = "other"
+				}
+			}
+			return res
 		}
+		res := call(m)
 		emit(res)
 	})
 	for _, s := range servers {
@@ -200,6 +218,21 @@ func pinMain(args []string) {
 	}
 }
 
+
+// nestShell runs f once, when Go asks for the shell's output (i.e. after Go has configured its HTTP client, before it connects).
+type nestShell struct {
+	simpleshell.Shell
+	f    func()
+	done bool
+}
+
+func (n *nestShell) Output() io.ReadCloser {
+	if !n.done {
+		n.done = true
+		n.f()
+	}
+	return n.Shell.Output()
+}
 
 func pinOf(spki []byte) string {
 	h := sha256.Sum256(spki)
